@@ -56,3 +56,5 @@ Definition hash_n (n : nat) (rc : record) : string := nth n (rc_hashes rc) Empty
 Definition reg_GetRecordsForExport (w : rworld) (id : Z) :=
   map (fun kr => mk_go_WrkChainBlockGenesisExport (fst kr) (hash_n 0 (snd kr)) (hash_n 1 (snd kr)) (hash_n 2 (snd kr)) (hash_n 3 (snd kr)) (hash_n 4 (snd kr)) (rc_time (snd kr)))
       (newest EXPORT_CAP (sort_by_key (records_of id (r_recs (rw_reg w))))).
+
+Definition wrkchain_ErrInvalidParams : Z := 40.     (* fmt.Errorf / errors.New in Params.Validate *)
